@@ -18,7 +18,7 @@ MIN_DECIDED_RATIO = 0.5
 WHAT = ("match", "vars", "counters", "valid")
 KNOWN_SWITCHES = ("F9", "F9b")
 RULE = (
-    "product of: control form {stop(c), c->stop(), skip(c), c->skip(), c->advance(1..3), fail_and_stop(c), last()->push, bare last()} x "
+    "product of: control form {stop(c), c->stop(), skip(c), c->skip(), skip.once(c), c->skip.once(), c->advance(1..3), fail_and_stop(c), last()->push, bare last()} x "
     "position among 1-4 push components (also with a plain match component that fails on the firing lines) x firing line(s) x scan window {*,1*,2*,0-3,1-4,2-9,1+3-5} x file layout {plain, interior blank, "
     "trailing blank, two trailing blanks, blank before firing line}; a third of the programs carry unmatched-mode: keep; thorough adds two control functions per program and an "
     "onmatch-qualified component before the control function. Non-trivial: the control function fires on at least one scanned line; "
@@ -42,6 +42,8 @@ CONTROLS = {
     "c->stop()": lambda n: ("when", COND, ("fn", "stop", [], [])),
     "skip(c)": lambda n: ("fn", "skip", [COND], []),
     "c->skip()": lambda n: ("when", COND, ("fn", "skip", [], [])),
+    "skip.once(c)": lambda n: ("fn", "skip", [COND], ["once"]),  # fires on the first line where c holds, never again
+    "c->skip.once()": lambda n: ("when", COND, ("fn", "skip", [], ["once"])),
     "c->advance(n)": lambda n: ("when", COND, ("fn", "advance", [("int", n)], [])),
     "fail_and_stop(c)": lambda n: ("fn", "fail_and_stop", [COND], []),
     "last()->push": lambda n: ("when", ("fn", "last", [], []), ("fn", "push", [("str", "L"), ("hdr", "0")], [])),
